@@ -14,6 +14,10 @@ PID = "C27"
 
 
 def patterns(n, full):
+    if full == "few":
+        # long enough for output buffers to be recycled while the stream is still being fed
+        return sorted({"d" * n, "n" * n} | {"".join("d" if (i + 1) % k == 0 else "n" for i in range(n)) for k in (2, 3, 5, 8, 13)}
+                      | {"d" * i + "n" * (n - i) for i in (9, 17, 20)} | {"n" * i + "d" * (n - i) for i in (9, 17, 20)})
     if full:
         return ["".join(p) for p in itertools.product("dn", repeat=n)]
     out = {"d" * n, "n" * n}
@@ -64,10 +68,12 @@ def run(tier):
     items = []
     groups = {}
     for ci, cfg in enumerate(configs(tier)):
-        for n, full in ((3, True), (5, True), (6, tier == "thorough"), (9, False)) + (((17, False), (24, False)) if tier == "thorough" else ()):
+        for n, full in ((3, True), (5, True), (6, tier == "thorough"), (9, False), (26, "few")) + (((17, False), (24, False), (40, False)) if tier == "thorough" else ()):
             for final in ("b", "n"):
                 for pol in (0, 1):
                     if (final == "n" or pol == 1) and n > 5 and tier == "quick":
+                        continue
+                    if n == 26 and tier == "quick" and (cfg.get("logical_processors") == 2):
                         continue
                     for pat in patterns(n, full):
                         a = {"w": 64, "h": 64, "n": n, "content": "grad", "enc_mode": 8, "pat": pat, "final": final}
